@@ -18,6 +18,7 @@ theorem readLenBytes_spec (w : Nat) (d : List UInt8) (c k : Nat) :
     | .ok m c' k' => k' = k + 1 ∧ c' = c + w + msgLen m ∧ c' ≤ d.length
     | .err _ k' => k' = k + 1 := by
   unfold readLenBytes
+  simp only [tick_reads]
   by_cases h1 : d.length < c + w
   · simp [h1]
   · simp only [h1, ↓reduceIte]
@@ -39,7 +40,7 @@ theorem entryHeader_spec (d : List UInt8) (c k : Nat) :
     match entryHeader d c k with
     | .ok om c' k' => k' = k + 2 ∧ c' = c + 12 + msgLen om.2 ∧ c' ≤ d.length
     | .err _ k' => k' ≤ k + 2 := by
-  simp only [entryHeader, bind, Rd.bind, relativeUnpack, c12Fmt_msgset_0, fmtSize, fldSize]
+  simp only [entryHeader, bind, Rd.bind, relativeUnpack, c12Fmt_msgset_0, fmtSize, fldSize, tick_reads]
   by_cases h1 : d.length < c + (8 + 0)
   · simp [h1]
   · simp only [h1, ↓reduceIte, decodeFields, fldSize]
